@@ -58,7 +58,7 @@ QuiescentOK(q) ==
         /\ \A i \in 1..n : bins[i].kind = "tree" => bins[i].ls = 0 /\ bins[i].waiter = 0
 
 Init == tr \in 1..Len(Traces) /\ l = 1
-Next == /\ l <= Len(Ev) /\ QuiescentOK(Ev[l]) /\ l' = l + 1 /\ UNCHANGED tr
+Next == /\ l <= Len(Ev) /\ l' = l + 1 /\ UNCHANGED tr /\ QuiescentOK(Ev[l])
 Spec == Init /\ [][Next]_vars
 Done == l > Len(Ev)
 Report ==
